@@ -101,6 +101,8 @@ type Sched struct {
 	Seed    uint64 `json:"seed,omitempty"`
 	D       int    `json:"d,omitempty"`      // pct change points
 	Victim  string `json:"victim,omitempty"` // starve: "consumer", "producer:<i>", "eval:<k>", "job:<j>"
+	Trig    int    `json:"trig,omitempty"`   // starve: the victim is let through whenever another goroutine is parked at the Trig-th distinct automatically instrumented code location
+	Leak    int    `json:"leak,omitempty"`   // starve: the victim is let through once in Leak steps on average (slow, not stopped)
 	Choices []int  `json:"choices,omitempty"`
 	Sizes   []int  `json:"sizes,omitempty"`
 	Lenient bool   `json:"lenient,omitempty"`
@@ -127,6 +129,8 @@ type Job struct {
 	Pre       int      `json:"pre,omitempty"`      // bytes of unrelated content already stored at the output path before the call
 	Share     bool     `json:"share,omitempty"`    // take the renderer value (and, in single-job groups, the model object) from the episode's pool, as a program that keeps them in variables does
 	CloseAt   []int    `json:"close_at,omitempty"` // single producer: call Close() before these batch indices (mid-stream flush)
+	EvalStallMs int    `json:"eval_stall_ms,omitempty"` // real renderers: the EvalStallAt-th evaluation takes this long in real time
+	EvalStallAt int    `json:"eval_stall_at,omitempty"`
 	Fresh     bool     `json:"fresh,omitempty"`    // eval family: the callers mostly query points nobody has queried before
 	Warm      int      `json:"warm,omitempty"`     // eval family: sequential warm-up evaluations at distinct points before the concurrent phase
 	Coords    string   `json:"coords,omitempty"`   // index | wild
